@@ -20,7 +20,15 @@ Model for C10 (object identity under mutation).  Written from the Rust text, war
                                              buffers and deeper levels are not visited
 * laythe_lib/src/global/primitives/{list,map,tuple}.rs   the natives (order of reads/scans kept)
 * laythe_vm/src/vm/ops.rs                    call_native: `with_stack()` natives get a *copy* of the
-                                             argument slice, the others the stack slice itself
+                                             argument slice, the others the stack slice itself;
+                                             `check_native_arity` rejects a non-number `index` before
+                                             the native runs
+* rejected operations                        every failing branch of the list natives (fractional /
+                                             negative / out-of-range / non-number index, `determine_index`)
+                                             raises: `Call::Err` → `Fiber::stack_unwind` to the handler
+                                             pushed by `try` (PushHandler) or, without one, the end of
+                                             the run.  `List::insert` checks the bound BEFORE
+                                             `ensure_capacity`, so a rejected insert never relocates.
 
 Heap mutations go through a tiny command language (`HCmd`) so that well-formedness and the
 immutability of identities are proved once for *every* program of the machine (Props/C10.lean).
@@ -33,9 +41,11 @@ abbrev Addr := Nat
 
 /-- `Value` (unboxed variant).  `bound a` is a `Method` object binding receiver `a`
 (`GetPropByName` on a non-instance); `undef` doubles as any non-collection object the history
-does not care about (functions, classes, channels). -/
+does not care about (functions, classes, channels, strings, error instances).  `neg k` is the number
+`-(k+1)`, `frac n` the number `n + 1/2` (only ever used as rejected / normalised indexes). -/
 inductive Val where
   | undef | nil | bool (b : Bool) | num (n : Nat) | ref (a : Nat) | bound (a : Nat)
+  | neg (k : Nat) | frac (n : Nat)
   deriving DecidableEq, Repr, Inhabited
 
 /-- Objects that never relocate. `clos c`: a closure with one capture (a box). -/
@@ -267,6 +277,7 @@ def Val.eqv (v w : Val) : Bool := v == w
 def Val.hash : Val → Nat × Nat
   | .undef => (0, 0) | .nil => (1, 0) | .bool b => (2, b.toNat) | .num n => (3, n)
   | .ref a => (4, a) | .bound a => (4, a)
+  | .neg k => (5, k) | .frac n => (6, n)
 
 /-- `hashbrown::HashMap::get`: same hash, then `==`. -/
 def mapFind (es : List (Val × Val)) (k : Val) : Option Val :=
@@ -284,6 +295,30 @@ def mapErase (es : List (Val × Val)) (k : Val) : List (Val × Val) :=
 def position (xs : List Val) (v : Val) : Option Nat :=
   let i := xs.findIdx (fun x => x.eqv v)
   if i < xs.length then some i else none
+
+/-! ### how the list natives read their `index` parameter (laythe_lib/src/global/primitives/list.rs) -/
+
+/-- the `index` argument as the natives see it: a non-negative integer, a negative integer `-(k+1)`,
+a number with a fractional part, or not a number at all (rejected by `check_native_arity`) -/
+inductive Ix where
+  | nat (i : Nat) | neg (k : Nat) | frac | notNum
+  deriving DecidableEq, Repr
+
+def ixOf : Val → Ix
+  | .num n => .nat n | .neg k => .neg k | .frac _ => .frac | _ => .notNum
+
+/-- `determine_index(list, index)` (ListIndexGet / ListIndexSet): fractional → Err; negative `-j`:
+`j > len` → Err, else `len - j`; otherwise `index >= len` → Err. -/
+def determineIndex (len : Nat) : Ix → Option Nat
+  | .nat i => if i ≥ len then none else some i
+  | .neg k => if k + 1 > len then none else some (len - (k + 1))
+  | _ => none
+
+/-- the guards of ListInsert / ListRemove before they touch the list: `index.fract() != 0.0` → error,
+`index < 0.0` → error, otherwise `index as usize` -/
+def guardIndex : Ix → Option Nat
+  | .nat i => some i
+  | _ => none
 
 /-! ### `Fiber::scan_roots` -/
 
@@ -373,6 +408,12 @@ structure M where
   halted : Bool := false
   skip : Nat := 0
   scans : Nat := 0
+  /-- `Fiber::exception_handlers` of all fibers: (fiber, `slot_depth` as an absolute stack top), innermost first -/
+  handlers : List (Nat × Nat) := []
+  /-- an error was raised and the run is on its way to the catch clause (ops are skipped up to `catchb`) -/
+  unwinding : Bool := false
+  /-- ghost: number of errors raised so far -/
+  raises : Nat := 0
   deriving Repr, Inhabited
 
 def M.fib (m : M) : Fiber := m.fibers.getD m.cur ({} : Fiber)
@@ -394,11 +435,30 @@ def M.scanRoots (m : M) : HCmd M := do
 def M.scanIfMoved (m : M) (a : Nat) : HCmd M := do
   if (← hasMoved a) then m.scanRoots else pure m
 
+/-- a native returns `Call::Err(error)`: `call_error` has pushed the error class and the message
+above the arguments (the instance replaces the class; all dead after the unwind);
+`Fiber::stack_unwind` resets `stack_top` to `stack_start + slot_depth` of the innermost handler of
+the running fiber and execution continues at the catch clause.  Without a handler the error is
+printed and the whole run ends. -/
+def M.raise (m : M) (name : String) : M :=
+  let m := { m with raises := m.raises + 1 }
+  match m.handlers.find? (fun hd => hd.1 == m.cur) with
+  | some hd =>
+    let m := (m.push .undef).push .undef
+    { m.setFib { m.fib with top := hd.2 } with unwinding := true }
+  | none => { m.emit name with halted := true }
+
 inductive Native where
   | lpush | lpop | lhas | lindex | lclear | llen | lget | lset | linsert | lremove
   | mget | mset | mgetm | mhas | mremove | mlen
   | tget | thas | tindex | tlen
   deriving DecidableEq, Repr
+
+/-- `check_native_arity`: the parameter declared `ParameterKind::Number` of each list native (position
+in the argument slice, receiver = 0); a value of another kind is a TypeError before the native runs -/
+def numberParam : Native → Option Nat
+  | .lget => some 1 | .lset => some 2 | .linsert => some 1 | .lremove => some 1
+  | _ => none
 
 inductive Op where
   | const (n : Nat) | nil | pushfn
@@ -410,11 +470,14 @@ inductive Op where
   | print | scrub
   | launch (argc : Nat) | switch (f : Nat) | send (ch : Nat) | recv (ch : Nat)
   | jf (n : Nat)
+  | cneg (k : Nat) | cfrac (n : Nat)
+  | tryb | trye (n : Nat) | catchb | endc | say (k : Nat)
   deriving DecidableEq, Repr
 
 def showVal : Val → String
   | .nil => "nil" | .bool true => "true" | .bool false => "false" | .num n => toString n
   | .undef => "undef" | .ref _ => "obj" | .bound _ => "method"
+  | .neg k => "-" ++ toString (k + 1) | .frac n => toString n ++ ".5"
 
 def refAddr : Val → Nat
   | .ref a => a | .bound a => a | _ => 0
@@ -422,18 +485,34 @@ def refAddr : Val → Nat
 def optVal : Option Val → Val
   | some v => v | none => .nil
 
+def sigRejects (f : Native) (c : Nat → Val) : Bool :=
+  match numberParam f with
+  | some i => ixOf (c i) == .notNum
+  | none => false
+
 /-- finish a native call: `drop_n(argc + 1); push(result)` (StackLess) or `pop_frame(); push(result)`
 (Normal); identical net effect on the stack array -/
 def M.ret (m : M) (argc : Nat) (v : Val) : M := (m.drop (argc + 1)).push v
 
-/-- the natives, reads and scans in the order of the Rust text.  `a i` re-reads argument `i` from
+/-- how a native call ends: `Call::Ok(value)` or `Call::Err(error)` (class name of the error) -/
+inductive Outcome where
+  | ok (v : Val) | err (name : String)
+  deriving DecidableEq, Repr
+
+/-- the receiver of a native call with `argc` arguments: the slot below the arguments -/
+def M.recvOf (m : M) (argc : Nat) : Nat := refAddr (m.fib.get (m.fib.top - (argc + 1)))
+
+/-- the natives, reads and scans in the order of the Rust text; returns the machine after the scans
+(the stack may have been rewritten) and the outcome.  `a i` re-reads argument `i` from
 the *stack* (StackLess natives see slots rewritten by an earlier scan); `c i` is the copy taken
 before the call (Normal natives, `args.to_vec()`). -/
-def callNative (reloc : Bool) (m : M) (f : Native) (argc : Nat) : HCmd M := do
+def nativeBody (reloc : Bool) (m : M) (f : Native) (argc : Nat) : HCmd (M × Outcome) := do
   let fuel ← limitM
   let base := m.fib.top - (argc + 1)
   let c := fun (i : Nat) => m.fib.get (base + i)
   let recv := refAddr (c 0)
+  -- check_native_arity: a `Number` parameter that is not a number is a TypeError, the native does not run
+  if sigRejects f c then pure (m, .err "TypeError") else
   match f with
   | .lpush =>            -- ListPush (StackLess): push every arg, then `if list.has_moved() { scan_roots }`
     let rec pushAll : List Val → HCmd Unit
@@ -441,101 +520,116 @@ def callNative (reloc : Bool) (m : M) (f : Native) (argc : Nat) : HCmd M := do
       | v :: vs => do listPush reloc fuel recv v; pushAll vs
     pushAll (m.fib.slice argc)
     let m ← m.scanIfMoved recv
-    pure (m.ret argc .nil)
+    pure (m, .ok .nil)
   | .lpop =>             -- ListPop: scan first, then `args[0]…pop()` (re-read)
     let m ← m.scanIfMoved recv
     let r ← listPop fuel (refAddr (m.fib.get base))
-    pure (m.ret argc (optVal r))
+    pure (m, .ok (optVal r))
   | .lhas =>             -- ListHas: scan first, then `args[0]…contains(&args[1])` (both re-read)
     let m ← m.scanIfMoved recv
     let xs ← listItems fuel (refAddr (m.fib.get base))
-    pure (m.ret argc (.bool (xs.any (fun x => x.eqv (m.fib.get (base + 1))))))
+    pure (m, .ok (.bool (xs.any (fun x => x.eqv (m.fib.get (base + 1))))))
   | .lindex =>           -- ListIndex: `position` first (item read before), scan afterwards
     let xs ← listItems fuel recv
     let r := position xs (c 1)
     let m ← m.scanIfMoved recv
-    pure (m.ret argc (match r with | some i => .num i | none => .nil))
+    pure (m, .ok (match r with | some i => .num i | none => .nil))
   | .lclear =>
     listClear fuel recv
     let m ← m.scanIfMoved recv
-    pure (m.ret argc .nil)
+    pure (m, .ok .nil)
   | .llen =>
     let xs ← listItems fuel recv
-    pure (m.ret argc (.num xs.length))
-  | .lget =>             -- ListIndexGet (Normal): scan, then list[index]
+    pure (m, .ok (.num xs.length))
+  | .lget =>             -- ListIndexGet (Normal): scan, then `determine_index`: list[index] or the error
     let m ← m.scanIfMoved recv
     let xs ← listItems fuel recv
-    let i := match c 1 with | .num i => i | _ => 0
-    match xs[i]? with
-    | some v => pure (m.ret argc v)
-    | none => pure { m.emit "IndexError" with halted := true }
-  | .lset =>             -- ListIndexSet (Normal): args = [recv, val, index] copies; scan; list[index] = args[1]
+    match determineIndex xs.length (ixOf (c 1)) with
+    | some i => pure (m, .ok (xs.getD i .undef))
+    | none => pure (m, .err "IndexError")
+  | .lset =>             -- ListIndexSet (Normal): args = [recv, val, index] copies; scan; `determine_index`; list[index] = args[1]
     let m ← m.scanIfMoved recv
-    let i := match c 2 with | .num i => i | _ => 0
-    listSet fuel recv i (c 1)
-    pure (m.ret argc (c 1))
-  | .linsert =>          -- ListInsert (Normal): args = [recv, index, val]; insert, then scan
-    let i := match c 1 with | .num i => i | _ => 0
-    let _ ← listInsert reloc fuel recv i (c 2)
-    let m ← m.scanIfMoved recv
-    pure (m.ret argc .nil)
-  | .lremove =>          -- ListRemove (Normal): scan, then remove
-    let m ← m.scanIfMoved recv
-    let i := match c 1 with | .num i => i | _ => 0
-    let r ← listRemove fuel recv i
-    pure (m.ret argc (optVal r))
+    let xs ← listItems fuel recv
+    match determineIndex xs.length (ixOf (c 2)) with
+    | some i => do
+      listSet fuel recv i (c 1)
+      pure (m, .ok (c 1))
+    | none => pure (m, .err "IndexError")
+  | .linsert =>          -- ListInsert (Normal): args = [recv, index, val]; fractional / negative index → error before
+    match guardIndex (ixOf (c 1)) with     -- anything else; insert, then scan, then the error for OutOfBounds
+    | some i =>
+      let ok ← listInsert reloc fuel recv i (c 2)
+      let m ← m.scanIfMoved recv
+      if ok then pure (m, .ok .nil) else pure (m, .err "IndexError")
+    | none => pure (m, .err "IndexError")
+  | .lremove =>          -- ListRemove (Normal): fractional / negative index → error; scan; remove; OutOfBounds → error
+    match guardIndex (ixOf (c 1)) with
+    | some i =>
+      let m ← m.scanIfMoved recv
+      let r ← listRemove fuel recv i
+      match r with
+      | some v => pure (m, .ok v)
+      | none => pure (m, .err "IndexError")
+    | none => pure (m, .err "IndexError")
   | .mget =>             -- MapIndexGet: KeyError when absent
     match (← readM recv) with
     | .obj (.map es) =>
       match mapFind es (c 1) with
-      | some v => pure (m.ret argc v)
-      | none => pure { m.emit "KeyError" with halted := true }
-    | _ => pure (m.ret argc .undef)
+      | some v => pure (m, .ok v)
+      | none => pure (m, .err "KeyError")
+    | _ => pure (m, .ok .undef)
   | .mset =>             -- MapIndexSet: args = [recv, val, key]
     match (← readM recv) with
     | .obj (.map es) => do
       setObjM recv (.map (mapInsert es (c 2) (c 1)))
-      pure (m.ret argc (c 1))
-    | _ => pure (m.ret argc .undef)
+      pure (m, .ok (c 1))
+    | _ => pure (m, .ok .undef)
   | .mgetm =>            -- MapGet: nil when absent
     match (← readM recv) with
-    | .obj (.map es) => pure (m.ret argc (optVal (mapFind es (c 1))))
-    | _ => pure (m.ret argc .undef)
+    | .obj (.map es) => pure (m, .ok (optVal (mapFind es (c 1))))
+    | _ => pure (m, .ok .undef)
   | .mhas =>
     match (← readM recv) with
-    | .obj (.map es) => pure (m.ret argc (.bool (mapFind es (c 1)).isSome))
-    | _ => pure (m.ret argc .undef)
+    | .obj (.map es) => pure (m, .ok (.bool (mapFind es (c 1)).isSome))
+    | _ => pure (m, .ok .undef)
   | .mremove =>
     match (← readM recv) with
     | .obj (.map es) =>
       match mapFind es (c 1) with
       | some v => do
         setObjM recv (.map (mapErase es (c 1)))
-        pure (m.ret argc v)
-      | none => pure { m.emit "KeyError" with halted := true }
-    | _ => pure (m.ret argc .undef)
+        pure (m, .ok v)
+      | none => pure (m, .err "KeyError")
+    | _ => pure (m, .ok .undef)
   | .mlen =>
     match (← readM recv) with
-    | .obj (.map es) => pure (m.ret argc (.num es.length))
-    | _ => pure (m.ret argc .undef)
+    | .obj (.map es) => pure (m, .ok (.num es.length))
+    | _ => pure (m, .ok .undef)
   | .tget =>
     match (← readM recv) with
     | .obj (.tuple xs) =>
       let i := match c 1 with | .num i => i | _ => 0
-      pure (m.ret argc (xs.getD i .undef))
-    | _ => pure (m.ret argc .undef)
+      pure (m, .ok (xs.getD i .undef))
+    | _ => pure (m, .ok .undef)
   | .thas =>
     match (← readM recv) with
-    | .obj (.tuple xs) => pure (m.ret argc (.bool (xs.any (fun x => x.eqv (c 1)))))
-    | _ => pure (m.ret argc .undef)
+    | .obj (.tuple xs) => pure (m, .ok (.bool (xs.any (fun x => x.eqv (c 1)))))
+    | _ => pure (m, .ok .undef)
   | .tindex =>
     match (← readM recv) with
-    | .obj (.tuple xs) => pure (m.ret argc (match position xs (c 1) with | some i => .num i | none => .nil))
-    | _ => pure (m.ret argc .undef)
+    | .obj (.tuple xs) => pure (m, .ok (match position xs (c 1) with | some i => .num i | none => .nil))
+    | _ => pure (m, .ok .undef)
   | .tlen =>
     match (← readM recv) with
-    | .obj (.tuple xs) => pure (m.ret argc (.num xs.length))
-    | _ => pure (m.ret argc .undef)
+    | .obj (.tuple xs) => pure (m, .ok (.num xs.length))
+    | _ => pure (m, .ok .undef)
+
+/-- `call_native`: run the native, then either `drop_n(argc + 1); push(result)` or the unwind -/
+def callNative (reloc : Bool) (m : M) (f : Native) (argc : Nat) : HCmd M := do
+  let r ← nativeBody reloc m f argc
+  match r.2 with
+  | .ok v => pure (r.1.ret argc v)
+  | .err name => pure (r.1.raise name)
 
 /-- pairs `(key, value)` of a map literal, in `op_map`'s insertion order (`peek(2i+1)`, `peek(2i)`) -/
 def mapPairs (f : Fiber) (n : Nat) : List (Val × Val) :=
@@ -544,8 +638,25 @@ def mapPairs (f : Fiber) (n : Nat) : List (Val × Val) :=
 /-- One micro-operation (≈ one bytecode instruction or one call) of the running fiber. -/
 def step (reloc : Bool) (m : M) (op : Op) : HCmd M :=
   if m.halted then pure m else
+  if m.unwinding then
+    -- the catch clause: `GetGlobal Error; CheckHandler` (class pushed and dropped), `FinishUnwind`,
+    -- `PopHandler`, `GetError` (the error instance becomes the local `e`)
+    (match op with
+     | .catchb => pure ({ m with unwinding := false, handlers := m.handlers.eraseP (fun hd => hd.1 == m.cur) }.push .undef)
+     | _ => pure m) else
   if m.skip > 0 then pure { m with skip := m.skip - 1 } else
   match op with
+  | .cneg k => pure (m.push (.neg k))
+  | .cfrac n => pure (m.push (.frac n))
+  | .tryb =>                -- PushHandler(slot_depth, catch label)
+    pure { m with handlers := (m.cur, m.fib.top) :: m.handlers }
+  | .trye n =>              -- end of the try body: PopHandler; Jump over the catch clause (`n` micro-operations)
+    pure { m with handlers := m.handlers.eraseP (fun hd => hd.1 == m.cur), skip := n }
+  | .catchb => pure m       -- only entered by an unwind
+  | .endc => pure m.drop    -- end of the catch scope: the local `e` is dropped
+  | .say k =>               -- `print("rejected")` / `print("accepted")`: [print fn, string] → [nil], stack effect of `print`
+    let m := (m.push .undef).drop
+    pure (((m.drop 2).push .nil).emit (if k = 0 then "rejected" else "accepted"))
   | .jf n =>                -- JumpIfFalse over the next `n` micro-operations (pops the condition)
     let m' := m.drop
     pure (match m.peek with | .bool false => { m' with skip := n } | .nil => { m' with skip := n } | _ => m')
@@ -585,8 +696,10 @@ def step (reloc : Bool) (m : M) (op : Op) : HCmd M :=
   | .newinst nf => do       -- `Obj()`: call_class puts the instance in the callee slot; `init` runs with self in its slot 0
     let a ← allocObjM (.inst (List.replicate nf .nil))
     let m := m.push (.ref a)
-    -- init's last `GetLocal 0; Return` leaves a dead copy of `self` above the result
-    pure (m.setFib (m.fib.setSlot m.fib.top (.ref a)))
+    -- init's body `self.f_j = nil;` pushes `self` and `nil` above the instance (SetPropByName leaves the nil, dropped); its
+    -- last `GetLocal 0; Return` leaves a dead copy of `self` directly above the result, the `nil` one slot further up stays
+    let f := m.fib.setSlot m.fib.top (.ref a)
+    pure (m.setFib (if nf > 0 then f.setSlot (m.fib.top + 1) .nil else f))
   | .getf j => do           -- GetPropByName on an instance field
     match (← readM (refAddr m.peek)) with
     | .obj (.inst fs) => pure (m.setFib (m.fib.peekSet 0 (fs.getD j .undef)))
